@@ -201,6 +201,97 @@ def structure_returns(stmts, result: Optional[str]):
     return out
 
 
+def _const_test(e):
+    """Truth value of a test made of constants only (after a constant argument was substituted for a parameter); else None."""
+    if isinstance(e, ast.Constant):
+        return bool(e.value)
+    if isinstance(e, ast.UnaryOp) and isinstance(e.op, ast.Not):
+        v = _const_test(e.operand)
+        return None if v is None else not v
+    if isinstance(e, ast.BoolOp):
+        vals = [_const_test(v) for v in e.values]
+        if isinstance(e.op, ast.And):
+            if any(v is False for v in vals):
+                return False
+            return True if all(v is True for v in vals) else None
+        if any(v is True for v in vals):
+            return True
+        return False if all(v is False for v in vals) else None
+    if isinstance(e, ast.Compare) and len(e.ops) == 1 and isinstance(e.left, ast.Constant):
+        r = e.comparators[0]
+        op = e.ops[0]
+        try:
+            if isinstance(r, ast.Constant):
+                a, b = e.left.value, r.value
+                if isinstance(op, ast.Eq):
+                    return a == b
+                if isinstance(op, ast.NotEq):
+                    return a != b
+                if isinstance(op, ast.Is):
+                    return a is b if (a is None or b is None or isinstance(a, bool) or isinstance(b, bool)) else None
+                if isinstance(op, ast.IsNot):
+                    return a is not b if (a is None or b is None or isinstance(a, bool) or isinstance(b, bool)) else None
+                if isinstance(op, ast.In) and isinstance(b, (str, bytes)):
+                    return a in b
+                if isinstance(op, ast.NotIn) and isinstance(b, (str, bytes)):
+                    return a not in b
+            if isinstance(r, (ast.Tuple, ast.List, ast.Set)) and all(isinstance(x, ast.Constant) for x in r.elts):
+                vals = [x.value for x in r.elts]
+                if isinstance(op, ast.In):
+                    return e.left.value in vals
+                if isinstance(op, ast.NotIn):
+                    return e.left.value not in vals
+        except TypeError:
+            return None
+    return None
+
+
+def _prune_constant_branches(stmts):
+    out = []
+    for st in stmts:
+        for attr in ("body", "orelse", "finalbody"):
+            blk = getattr(st, attr, None)
+            if isinstance(blk, list) and not isinstance(st, (ast.FunctionDef, ast.AsyncFunctionDef, ast.ClassDef)):
+                setattr(st, attr, _prune_constant_branches(blk))
+        if isinstance(st, ast.Try):
+            for h in st.handlers:
+                h.body = _prune_constant_branches(h.body)
+        if isinstance(st, ast.If):
+            v = _const_test(st.test)
+            if v is True:
+                out.extend(st.body)
+                continue
+            if v is False:
+                out.extend(st.orelse)
+                continue
+        out.append(st)
+
+    class E(ast.NodeTransformer):
+        def visit_IfExp(self, node):
+            self.generic_visit(node)
+            v = _const_test(node.test)
+            if v is True:
+                return node.body
+            if v is False:
+                return node.orelse
+            return node
+
+        def visit_FunctionDef(self, node):
+            return node
+
+        visit_AsyncFunctionDef = visit_FunctionDef
+        visit_ClassDef = visit_FunctionDef
+
+    res = [E().visit(st) for st in out]
+    # statements after an unconditional return/raise that pruning exposed are dead
+    cut = []
+    for st in res:
+        cut.append(st)
+        if isinstance(st, (ast.Return, ast.Raise)):
+            break
+    return cut
+
+
 def _pass(like):
     p = ast.Pass()
     ast.copy_location(p, like)
@@ -358,7 +449,7 @@ class Inliner:
         if body and isinstance(body[0], ast.Expr) and isinstance(body[0].value, ast.Constant) and isinstance(body[0].value.value, str):
             body = body[1:]
         sub = _Subst(mapping)
-        return [sub.visit(st) for st in body]
+        return _prune_constant_branches([sub.visit(st) for st in body])
 
     # ---------------------------------------------------------------- statement level
     def expand_block(self, stmts, module, cls, depth, stack):
